@@ -81,7 +81,7 @@ var twoOfFive = [10]string{
 }
 
 var (
-	code39Mods  [2][44][]bool // [wide-2][value]
+	code39Mods [2][44][]bool // [wide-2][value]
 	// code39Index: byte -> value, -1 if not encodable; '*' -> 43.  Built by a
 	// variable initializer (not init) so that other files' init functions
 	// may rely on it regardless of file order.
